@@ -23,7 +23,7 @@ LEVEL_TEXT = ("Base scenarios with depth-dependent sheared, time-dependent curre
 LEVEL_NOTE = "Equality is on f8 output, so 'bit for bit' is exact. Trusts the row tag column (an int instance variable) to follow the particle (C05)."
 RULE = ("case = base scenario + variant list. Non-trivial: at least one particle placed behind a removed/killed one in the state arrays survives for >= 3 further records "
         "(the cross-talk pattern); distinct by base parameters.")
-MANDATORY = ["lonlat_release_pairs", "reversed_time", "subgrid_off_diagonal", "float_day_time_axis", "repeat_pairs", "subset_pairs", "added_rows_pairs", "permuted_pairs", "killed_others_pairs", "time_shift_pairs", "deactivated_others_pairs", "empty_state_before_late_release_pairs", "death_then_output",
+MANDATORY = ["vertical_advection", "deactivated_rows_alone_pairs", "lonlat_release_pairs", "reversed_time", "subgrid_off_diagonal", "float_day_time_axis", "repeat_pairs", "subset_pairs", "added_rows_pairs", "permuted_pairs", "killed_others_pairs", "time_shift_pairs", "deactivated_others_pairs", "empty_state_before_late_release_pairs", "death_then_output",
              "trajectory_points_compared", "dense", "sparse", "survivor_behind_removed"]
 ASSUMPTIONS = ["diffusion off (as the property states)"]
 TIMEOUT = {"quick": 900, "thorough": 3400}
@@ -119,11 +119,14 @@ def base_spec(case: dict[str, Any]):
         step = int(rng.choice([0, 0, 0, 1, 3, 5]))
         rows.append(dict(step=step, X=x, Y=y, Z=float(np.round(rng.uniform(0, 150), 2)), rid=rid))
     rows.sort(key=lambda r: r["step"])
+    vadv = bool(case["idx"] % 4 == 2)
+    if vadv:  # vertical advection: depth changes too, also for particles an IBM has switched off
+        world["scalars"]["w"] = dict(kind="random", seed=case["idx"] + 7, lo=-0.004, hi=0.004, w_levels=True)
     layout = "dense" if case["idx"] % 4 == 3 else "sparse"
     # half of the bases store ocean_time as float days (frame times not exactly representable in that unit)
     tu = "days since 2019-12-01 00:00:00" if (case["idx"] // 2) % 2 else None
     return dict(world=world, rows=rows, dt=dt, nsteps=nsteps, scheme=["EF", "RK2", "RK4"][case["idx"] % 3], layout=layout, time_units=tu,
-                reversed=bool(case["idx"] % 5 == 4), subgrid=[2, imax - 1, 1, jmax - 2] if case["idx"] % 3 == 1 else None)
+                reversed=bool(case["idx"] % 5 == 4), vadv=vadv, subgrid=[2, imax - 1, 1, jmax - 2] if case["idx"] % 3 == 1 else None)
 
 
 def make_scn(b: dict[str, Any], rows: list[dict[str, Any]], kill_tag: dict[str, list[int]], shift_steps: int = 0,
@@ -146,6 +149,11 @@ def make_scn(b: dict[str, Any], rows: list[dict[str, Any]], kill_tag: dict[str, 
                state=dict(instance_variables=dict(rid="int", age="float", temp="float"), particle_variables=dict(release_time="time"), default_values=dict(age=0.0, temp=0.0)),
                ibm=dict(module=C.REC_IBM, age=True, kill_tag=kill_tag, deactivate_tag=deactivate_tag or {}, log=False),
                output=dict(period=dt, layout=b["layout"], instance=dict(pid="i4", X="f8", Y="f8", Z="f8", rid="i4", age="f8", temp="f8"), particle=dict(release_time="f8")))
+    if b.get("vadv"):
+        run["vertical_advection"] = True
+        run["extra_forcing"] = ["temp", "w"]
+        run["state"]["instance_variables"]["w"] = "float"
+        run["state"]["default_values"]["w"] = 0.0
     return dict(world=w, run=run)
 
 
@@ -176,6 +184,7 @@ def run_case(case: dict[str, Any], wd: Path) -> dict[str, Any]:
     sit["float_day_time_axis"] = int(bool(b.get("time_units")))
     sit["reversed_time"] = int(bool(b.get("reversed")))
     sit["subgrid_off_diagonal"] = int(bool(b.get("subgrid")))
+    sit["vertical_advection"] = int(bool(b.get("vadv")))
 
     def run(tag, rows, kill_tag, shift=0, deact=None):
         scn = make_scn(b, rows, kill_tag, shift, deact)
@@ -195,11 +204,11 @@ def run_case(case: dict[str, Any], wd: Path) -> dict[str, Any]:
     btr, border = base
     rids = [r["rid"] for r in b["rows"]]
 
-    def compare(tag, other, keep_rids, sitname, shift=0):
+    def compare(tag, other, keep_rids, sitname, shift=0, ref=None):
         otr, _ = other
         n = 0
         for rid in keep_rids:
-            a = btr.get(rid, [])
+            a = (ref[0] if ref else btr).get(rid, [])
             o = otr.get(rid, [])
             if a != o:
                 k = next((i for i, (x, y) in enumerate(zip(a, o)) if x != y), min(len(a), len(o)))
@@ -249,6 +258,10 @@ def run_case(case: dict[str, Any], wd: Path) -> dict[str, Any]:
             if o:
                 keep = [r for r in rids if r not in victims]
                 compare(f"other particles (rows {victims}) deactivated by the IBM at step {s}", o, keep, "deactivated_others_pairs")
+                # the deactivated rows on their own (everybody present is inactive from step s on) against the same rows in company
+                o2 = run("deactivated_alone", [r for r in b["rows"] if r["rid"] in victims], {}, deact={str(s): victims})
+                if o2:
+                    compare(f"rows {victims}, deactivated at step {s}, run without the other rows", o2, victims, "deactivated_rows_alone_pairs", ref=o)
                 # the inactive ones themselves must stay where they were
                 otr = o[0]
                 for v_ in victims:
